@@ -227,7 +227,9 @@ class Interp(ExprMixin):
                                          for a in args)
         for name, default, kind in params:
             if kind in ('pos', 'kwonly') and name not in bound:
-                if default is not None:
+                if has_star and None in kwargs:
+                    bound[name] = Poly.atom(('fresh', fresh_id(), 'starred:' + name))   # may be supplied by the ** mapping
+                elif default is not None:
                     bound[name] = self.eval_default(f, default)
                 elif has_star:
                     bound[name] = nf.sym(name)
@@ -284,7 +286,13 @@ class Interp(ExprMixin):
             args.append(self.eval(a, st))
         kwargs = {}
         for k in node.keywords:
-            kwargs[k.arg] = self.eval(k.value, st)
+            v = self.eval(k.value, st)
+            if k.arg is None:
+                known = _known_mapping(v)
+                if known is not None:
+                    kwargs.update(known)        # **{...} / **dict(...) / forwarded **kwargs with known keys
+                    continue
+            kwargs[k.arg] = v
         # super().m(...)
         if isinstance(fn, ast.Attribute) and isinstance(fn.value, ast.Call) \
                 and isinstance(fn.value.func, ast.Name) and fn.value.func.id == 'super':
@@ -826,6 +834,24 @@ class Interp(ExprMixin):
             cont, d3 = self.exec_block(s.finalbody, cont)
             done += d3
         return cont, done
+
+
+def _known_mapping(v):
+    """{name: value} of a dict literal / dict(...) call / captured **kwargs whose keys are all known."""
+    a = v.single_atom() if isinstance(v, Poly) else None
+    if a is None or a[0] != 'app' or a[1] not in ('dict', 'kwargs'):
+        return None
+    out = {}
+    for item in a[2]:
+        if not isinstance(item, Tup):
+            return None
+        pairs = [item] if (len(item) == 2 and isinstance(item.items[0], Const) and isinstance(item.items[0].value, str)) \
+            else list(item.items)
+        for pr in pairs:
+            if not (isinstance(pr, Tup) and len(pr) == 2 and isinstance(pr.items[0], Const) and isinstance(pr.items[0].value, str)):
+                return None
+            out[pr.items[0].value] = pr.items[1]
+    return out
 
 
 class _Raised(Exception):
